@@ -60,6 +60,7 @@ def main():
         for fm in S.format_choices(tpl, rng, fmt_cap):
             problems.append((tpl, fm))
     rng.shuffle(problems)
+    problems = [tuple(x) for x in cfg.get("priority", [])] + problems
     problems = problems[:max_problems]
 
     index = {"shards": [], "skipped": {}, "capacity": os.environ.get("TENSORA_VERIF_INITIAL_CAPACITY")}
@@ -110,7 +111,11 @@ def main():
         out_name = names[0]
         out_modes = "".join(m.character for m in prob.formats[out_name].modes)
         exact = "s" not in out_modes
-        sizes_list = S.index_sizes_choices(tpl, rng, n_inputs)
+        sizes_list = S.index_sizes_choices(tpl, rng, n_inputs, tuple(cfg.get("sizes", (0, 1, 2, 3))))
+        if pno < len(cfg.get("priority", [])):
+            # growth paths: rows wider than the initial capacity, several stored rows
+            idx = sorted(sizes_list[0].keys())
+            sizes_list = [{i: rng.choice([3, 4, 5]) for i in idx} for _ in range(max(2, n_inputs))]
         added = False
         for sizes in sizes_list:
             ins = S.make_inputs(tpl, sizes, rng)
